@@ -8,6 +8,8 @@ shell's fd table.  The offline checker judges exactly-once, per-link conservatio
 (all end records before the shell's next command), leftover children and the status."""
 import itertools
 import json
+import signal
+import time
 import os
 import resource
 
@@ -87,8 +89,31 @@ def judge(case):
     if case.get("bg_before"):
         # a background job started earlier ends while the pipeline is still running
         line = "vp_job BG %s @bg & ; " % case["bg_before"] + line
-    r = run_cicada(sb, ["-c", line], timeout=25.0)
+    during = None
+    if case.get("stopcont") is not None:
+        # a stage is stopped and continued from outside while the pipeline runs (it finishes last): the shell must
+        # keep waiting for it and report the last stage's own status
+        target = "@%d" % case["stopcont"]
+        sc = {"done": False}
+
+        def during(shell_pid):
+            t_end = time.time() + 5
+            while time.time() < t_end:
+                for x in sb.records():
+                    if x.get("kind") == "start" and target in x.get("argv", []) and x["name"] == "vp_st":
+                        try:
+                            os.kill(x["pid"], signal.SIGSTOP)
+                            time.sleep(0.25)
+                            os.kill(x["pid"], signal.SIGCONT)
+                            sc["done"] = True
+                        except OSError:
+                            pass
+                        return
+                time.sleep(0.02)
+    r = run_cicada(sb, ["-c", line], timeout=25.0, during=during)
     recs = sb.records()
+    if case.get("stopcont") is not None and not sc["done"]:
+        return ("inconclusive", "the stage to stop and continue was not found in time", {"line": line})
     res = {"line": line, "rc": r.rc, "n_records": len(recs), "stderr": r.err.decode("utf-8", "replace")[-300:]}
     feat = "n=%s" % (n if n < 3 else "3+")
     if r.timed_out:
@@ -333,6 +358,20 @@ def gen_cases(tier, seed):
             st[-1] = {"kind": "noread", "linger": rng.choice([None, 0, 30])}
         c = dict(mk(st), cls="after-prelude")
         c["prelude"] = rng.choice(PRELUDES)
+        cases.append(c)
+    # 4d. a stage stopped and continued from outside; it is the one that finishes last
+    for _ in range(200 if thorough else 40):
+        n = rng.choice([2, 3, 4])
+        order = list(range(n))
+        st = clean_pipeline(n, rng.choice([0, 4096, 70000]), rng.randrange(1, 10 ** 6), order, step=0)
+        k = rng.randrange(n)
+        for i, x in enumerate(st):
+            # the other stages outlive the stop window (a pipeline whose other members are all gone while one is
+            # stopped is legitimately handed back to the shell), the target outlives them
+            x["linger"] = 1100 if i == k else rng.choice([600, 650, 700])
+        st[-1]["exit"] = rng.choice([7, 0, 3])
+        c = dict(mk(st), cls="stop-cont")
+        c["stopcont"] = k
         cases.append(c)
     # 5. a non-last stage killed by a signal mid-pipeline (after it did its work)
     for _ in range(200 if thorough else 40):
